@@ -29,6 +29,7 @@ exactly the stored beacons r, r+1, r+2, … (first from the store, then live), e
 import Drand.Beacon.Stream
 import Gen.Callback
 import DrandProofs.C18
+import DrandProofs.C02
 
 namespace Drand.Beacon.Stream
 open Drand Drand.Store
@@ -1797,5 +1798,56 @@ example : ∃ bs, ∀ b ∈ (Sys.run .asIs ⟨.bolt [(1, tb 1), (2, tb 2), (3, t
     refine ⟨?_, ?_⟩ <;> (intro r hr; revert r; decide)
   obtain ⟨bs, _, h⟩ := c11_sent_stored _ _ rfl hS trivial ⟨rfl, rfl, rfl⟩ _ hleg
   exact ⟨bs, h⟩
+
+/-! ### concurrent writers of one round reach the streams once (corollary of C02)
+
+`callbackStore.Put` dispatches a beacon to the callbacks exactly when the Put below it answered nil
+(`tie_dispatch_lossless`: base Put first, error ⇒ return). The `put b` event of this file *is* such a Put. When `k` writers
+(the aggregator, the sync manager) Put beacons of the next round at the same time, C02 shows that exactly the first
+acceptable one answers nil — so the streams see at most one `put` event for that round, and exactly one on an unchained
+scheme. -/
+
+/-- the `put` events `k` concurrent Puts of the next round produce, in the order the mutex serialises them -/
+def raceEvents (s : Chain.Stack) (bs : List Beacon) : List Ev :=
+  ((bs.zip (s.putAll bs).2).filter (fun p => p.2 == .ok)).map fun p => .put (Chain.stored s.chained p.1)
+
+private theorem count_snd_zip {α β : Type} [BEq β] (l1 : List α) (l2 : List β) (h : l1.length = l2.length) (a : β) :
+    ((l1.zip l2).filter (fun p => p.2 == a)).length = l2.countP (· == a) := by
+  induction l1 generalizing l2 with
+  | nil => cases l2 with
+    | nil => rfl
+    | cons y l2 => simp at h
+  | cons x l1 ih =>
+    cases l2 with
+    | nil => simp at h
+    | cons y l2 =>
+      have := ih l2 (by simpa using h)
+      simp only [List.zip_cons_cons, List.filter_cons, List.countP_cons]
+      split <;> simp_all
+
+/-- **c11_concurrent_puts_one_event.** `k` concurrent Puts of round `head+1` (any order `bs`) hand the streams at most one
+`put` event; on an unchained scheme, for a non-empty race, exactly one — that of the first writer in the order. A stream in
+its live phase therefore queues the round once. -/
+theorem c11_concurrent_puts_one_event (s : Chain.Stack) (h : Chain.ChainInv s) (bs : List Beacon)
+    (hr : ∀ b ∈ bs, b.round = (Chain.Stack.last s.base).round + 1) :
+    (raceEvents s bs).length ≤ 1 ∧
+    (s.chained = false → bs ≠ [] → (raceEvents s bs).length = 1) := by
+  obtain ⟨c1, _, c3⟩ := Chain.c02_concurrent_same_round_one_winner s h bs hr
+  have hlen : (raceEvents s bs).length = (s.putAll bs).2.count .ok := by
+    unfold raceEvents
+    rw [List.length_map, count_snd_zip bs _ c3.symm]
+    rfl
+  refine ⟨?_, ?_⟩
+  · rw [hlen, c1]; split <;> omega
+  · intro hc hne
+    cases bs with
+    | nil => exact absurd rfl hne
+    | cons b rest =>
+      rw [hlen]
+      exact (Chain.c02_concurrent_unchained_first_wins s h hc b rest hr).1
+
+example : (raceEvents (Chain.Stack.init false [0xaa]) [⟨1, [0xc2], [0x07]⟩, ⟨1, [0xc0], []⟩, ⟨1, [0xc2], []⟩]).length = 1 ∧
+    ((Chain.Stack.init false [0xaa]).putAll [⟨1, [0xc2], [0x07]⟩, ⟨1, [0xc0], []⟩, ⟨1, [0xc2], []⟩]).2 = [.ok, .dupDiffSig, .already] := by
+  decide
 
 end Drand.Beacon.Stream
